@@ -613,9 +613,11 @@ pub fn build<C: Coll>(spec: &Spec) -> C {
         }
         Recipe::HugeSparse => {
             // keep the block below ~16 MiB; element types too large for that (or the Miri lane) get a multi-group table instead
-            let lg = *rng.pick(&[18u32, 18, 18, 19, 20]);
-            let lg = if (C::elem_size().max(1) << lg) > (16 << 20) { 18 } else { lg };
-            if slow || (C::elem_size().max(1) << lg) > (16 << 20) {
+            let mut lg = if rng.chance(1, 4) { *rng.pick(&[21u32, 22, 23, 24, 24, 25, 26]) } else { *rng.pick(&[18u32, 18, 18, 19, 20]) };
+            while lg > 18 && ((C::elem_size().max(1) + 1) << lg) > (1536 << 20) {
+                lg -= 1;
+            }
+            if slow || ((C::elem_size().max(1) + 1) << lg) > (1536 << 20) {
                 let mut c = C::new_unallocated(bh, 0);
                 for id in 0..lim(40) {
                     c.put(id, g());
@@ -724,6 +726,9 @@ macro_rules! for_coll {
             "table:B3" => $f::<TableC<B3>>($($arg),*),
             "table:P8" => $f::<TableC<P8>>($($arg),*),
             "table:L200" => $f::<TableC<L200>>($($arg),*),
+            "map:L600xB1" => $f::<MapC<L600, B1>>($($arg),*),
+            "set:L600" => $f::<SetC<L600>>($($arg),*),
+            "table:L4K" => $f::<TableC<L4K>>($($arg),*),
             "set:Z" => $f::<SetC<Z>>($($arg),*),
             "table:Z8" => $f::<TableC<Z8>>($($arg),*),
             "map:ZxZ" => $f::<MapC<Z, Z>>($($arg),*),
@@ -732,7 +737,7 @@ macro_rules! for_coll {
     }};
 }
 
-pub const COLLS: [&str; 20] = [
+pub const COLLS: [&str; 23] = [
     "map:P8xP8", "map:T24xT24", "map:B1xB1", "map:B1xZ", "map:B3xB1", "map:B3xZ", "map:L200xB1", "map:A64xP8", "map:T24xZ",
-    "set:T24", "set:B1", "set:B2", "set:B6", "set:P8", "set:A64", "table:T24", "table:B1", "table:B3", "table:P8", "table:L200",
+    "set:T24", "set:B1", "set:B2", "set:B6", "set:P8", "set:A64", "table:T24", "table:B1", "table:B3", "table:P8", "table:L200", "map:L600xB1", "set:L600", "table:L4K",
 ];
